@@ -510,14 +510,24 @@ def _c15_part(rep, tier):
     return c15tier.run_c15(rep, tier)
 
 
+def _c15_matrix(rep, tier):
+    from . import c15tier
+    return c15tier.run_matrix(rep, tier)
+
+
 register("C15",
          "regenerated tables: every go/ast node kind of the toolchain has a case in copyAST and every child / child-list / value field "
          "of its struct is carried over (decide over the whole table); e2e: a corpus of 20 declarations covering labels, goto, all switch "
          "and select forms, closures, shadowing of names the generated file imports, generics (type parameters, constraints, explicit "
          "instantiation with one and two type arguments), struct tags, doc comments, aliased and same-named imports is copied by wire, "
          "the declaration order is compared, the package is compiled and vetted, and every function is executed with and without the "
-         "wireinject tag (identical output required); non-trivial = the corpus run",
-         [_c15_part])
+         "wireinject tag (identical output required); collision matrix: 25 kinds of local entity (variable, constant, local type, "
+         "parameter, named result, receiver, closure parameter, range / type-switch / select / if-init variable, label reached "
+         "backwards and forwards, type parameter also used before its declaration, type parameter of a generic type, field, method, "
+         "shadowing, recursion, locals already carrying a numeric suffix) x 8 names (import names only the generated file uses, "
+         "import names of both files, the source's own aliases, a package-level function) = 200 functions copied, compiled and run "
+         "with and without the tag; non-trivial = the corpus run / each matrix function",
+         [_c15_part, _c15_matrix])
 
 
 def _c19_part(rep, tier):
@@ -590,7 +600,10 @@ register("C11",
          "interface-to-interface (superset, subset, unrelated, itself), embedded interfaces, aliases, interfaces and types of another "
          "package — verdict by Go's method-set rules, accepted ones compiled; non-trivial = program with a binding / each pair",
          [planner_part("C11", _nt_bind),
-          e2e_part("C11", [("b", {"units": [1, 2]})], _pairs_c02, {"C11"},
+          e2e_part("C11", [("b", {"units": [1, 2]}),
+                           # injectors whose interface result is bound to one of several arguments implementing it
+                           ("r", {"p_extra_params": 0.95, "max_structs": 4, "units": [2, 3], "p_func": 0.2, "p_iface_root": 0.9,
+                                  "p_iface_arg": 0.6, "p_conc_arg": 0.8, "p_twin": 0.0})], _pairs_c02, {"C11"},
                    lambda ur: any(it["kind"] == "bind" for it in ur.u.items) and (ur.impl or "").startswith("ok"),
-                   n_quick=90, n_thorough=900),
+                   n_quick=120, n_thorough=1000),
           _c11_matrix])
